@@ -459,6 +459,10 @@ impl<'p> CoroutinePool<'p> {
         stack_size: Option<usize>,
         priority: Option<c_longlong>,
     ) -> std::io::Result<()> {
+        if PoolState::Stopped == self.state() {
+            // (a stopping pool still creates workers for the tasks it accepted earlier)
+            return Err(Error::other("The coroutine pool is stopped !"));
+        }
         if self.get_running_size() >= self.get_max_size() {
             trace!(
                 "The coroutine pool:{} has reached its maximum size !",
